@@ -64,6 +64,7 @@ class C15(Check):
         model_check(ctx, "MC_NetworkOrder", "MC_NetworkOrder_full.cfg", workers=1, expect_violation="OrderIndependent")
         # the transcription of the cost model (which_variant), bound to the code through the logged variant of every 3-operand case
         model_check(ctx, "MC_NetworkCost", "MC_NetworkCost.cfg" if ctx.tier == "quick" else "MC_NetworkCost_thorough.cfg", workers=4)
+        apalache_check(ctx, "ArgMinUnbounded", "Inv")          # the selection rule itself, for arbitrary natural costs (SMT)
 
     def configs(self, ctx):
         base = list(QUICK_CFGS) + ["avx2-17-O2", "avx2-14-O2+FASTOR_DONT_PERFORM_OP_MIN", "avx2-14-O2+FASTOR_KEEP_DP_FIXED"]
